@@ -158,6 +158,17 @@ def run(ctx):
         ref = Canvas()
         ops = []
         has_cursor = False
+        # pixels that may differ from the composition because the pointer shape was stamped there and the server has not
+        # repainted them since (VncProofs/C12Cursor.lean `dirtyStep`): under a stamp = cursor box at pointer - hotspot, mask bit set
+        dirty, cur_shape = set(), None
+
+        def stamp():
+            if cur_shape is None:
+                return set()
+            cw, ch, cmask, fx_, fy_ = cur_shape
+            ox, oy = c.x - fx_, c.y - fy_
+            st = (cw + 7) // 8
+            return {(ox + a, oy + b) for b in range(ch) for a in range(cw) if cmask[b * st + a // 8] >> (7 - a % 8) & 1 and ox + a >= 0 and oy + b >= 0}
         ml = ["cv-new %d %s" % ("nocursor" in curs, mode.encode().hex())]
         for _ in range(r.randint(1, 25)):
             k = r.random()
@@ -171,6 +182,8 @@ def run(ctx):
                 ops.append(("upd", x, y, w, h, len(data)))
                 c.updateRectangle(x, y, w, h, data)
                 ref.paint(x, y, w, h, px, pf)
+                if data:
+                    dirty = {q for q in dirty if not (x <= q[0] < x + w and y <= q[1] < y + h)} | stamp()
                 ml.append("cv-upd %d %d %d %d %s" % (x, y, w, h, hx(data) or "-"))
             elif k < .85:
                 w, h = r.choice([0, 1, 5, 50, 120, 320]), r.choice([0, 1, 5, 50, 120, 320])
@@ -187,6 +200,9 @@ def run(ctx):
                 ops.append(("cursor", fx, fy, w, h))
                 has_cursor = True
                 c.updateCursor(fx, fy, w, h, img, mask)
+                if "nocursor" not in curs:
+                    cur_shape = (w, h, mask, fx, fy)
+                    dirty |= stamp()
                 ml.append("cv-cursor %d %d %d %d %s %s" % (fx, fy, w, h, hx(img) or "-", hx(mask) or "-"))
             else:
                 x, y = r.randrange(0, 60), r.randrange(0, 60)
@@ -212,6 +228,23 @@ def run(ctx):
                     what = "pixel (%d,%d): screen %r, composition %r" % (i % got[0], i // got[0], tuple(got[2][3 * i:3 * i + 3]), tuple(want[2][3 * i:3 * i + 3]))
                 ctx.violate("composition", {"input": {"mode": mode, "cursor_option": curs, "ops": [list(o) for o in ops], "model_lines": ml},
                                             "observed": what, "how": "callbacks on a real VNCDoToolClient vs the reference canvas (latest write wins, never-sent pixels black)"})
+        elif got is not None or ref.rgb() is not None:
+            # ... and with a pointer shape being composited: exact size, and the composition everywhere outside the stamps
+            want = ref.rgb()
+            what = None
+            if got is None or want is None or got[:2] != want[:2]:
+                what = "size %r, composition has %r" % (got and got[:2], want and want[:2])
+            else:
+                W = got[0]
+                for i in range(0, len(got[2]), 3):
+                    if got[2][i:i + 3] != want[2][i:i + 3] and ((i // 3) % W, (i // 3) // W) not in dirty:
+                        what = "pixel (%d,%d) is under no pointer stamp, yet the screen has %r where the composition has %r" % (
+                            (i // 3) % W, (i // 3) // W, tuple(got[2][i:i + 3]), tuple(want[2][i:i + 3]))
+                        break
+            ctx.count("histories_with_a_composited_pointer")
+            if what:
+                ctx.violate("composition-outside-cursor", {"input": {"mode": mode, "cursor_option": curs, "ops": [list(o) for o in ops], "model_lines": ml},
+                                                           "observed": what, "how": "callbacks on a real VNCDoToolClient; pointer shape composited: the screen must have the size of the composition and equal it wherever no stamp (cursor box at pointer - hotspot, mask bit set) lies that the server has not repainted since (C12_cursor_frame)"})
         meta.append((len(lines), len(ml), gtok, mode, curs, ops, ml))
         lines += ml
     cli_nocursor_leg(ctx)
